@@ -250,6 +250,34 @@ def c02(run):
             run.violation("IBAN(cc+dd+bban) for dd in 00..99", [cc, b], "accepted pairs " + ",".join(got),
                           "exactly " + exp, "uniqueness sweep over all 100 pairs",
                           op=["iban.new", hx(cc + (got[0] if got and got[0] != exp else exp) + b), "F", "F"])
+    # the same BBAN text assembled under every country of that BBAN length, in varying order: the check
+    # digits depend on (country, BBAN) and on nothing that was assembled before
+    r = S.r
+    by_len = {}
+    for cc in S.countries:
+        by_len.setdefault(S.table[cc]["bban_length"], []).append(cc)
+    ops2 = []
+    for n, ccs in sorted(by_len.items()):
+        if len(ccs) < 2:
+            continue
+        for _ in range(run.scale(2, 30)):
+            b = "".join(r.choice(DIGITS) for _ in range(n)) if r.random() < 0.7 else S.bban(r.choice(ccs)).upper()
+            order = ccs[:]
+            r.shuffle(order)
+            for cc in order + order[::-1]:
+                ops2.append(["iban.from_bban", hx(cc), hx(b)])
+    reals2, model2 = run.correspond("one BBAN text under several countries", ops2)
+    for k, (f, a, m) in enumerate(zip(ops2, reals2, model2)):
+        if a != m:
+            run.violation("IBAN.from_bban after other countries were given the same BBAN text",
+                          [unhx(f[1]), unhx(f[2])], a, m, "model (proved against the Spec) on the same call",
+                          kind="history", history=ops2[max(0, k - 80):k + 1])
+            break
+    sample = []
+    for cc in S.countries:
+        b = S.bban(cc).upper()
+        sample.append(cc + iban_check_digits(cc, b) + b)
+    via_bban_check(run, S, sample)
 
 
 # --------------------------------------------------------------------------- C04
@@ -326,8 +354,8 @@ def c04(run):
            "strict mode; the class of every outcome (including non-library exceptions) is compared with the "
            "model and every raised error class with the Spec's defect predicate; non-trivial = distinct text "
            "that passes the first stage or is in the malformed stream",
-      note="totality/soundness proved for the model for IBAN without national validation and BIC; with "
-           "national validation totality follows from C06/C07 (see there)")
+      note="totality/soundness proved for the model for IBAN with and without national validation (every "
+           "text, every registry; live_iban_bban_no_crash) and for BIC")
 def c05(run):
     S = Streams(run.seed * 1000 + 5)
     r = S.r
@@ -383,6 +411,7 @@ def c05(run):
         if o != "ok T":
             run.violation("IBAN(text)", [unhx(f[1])], a, "an error class whose defect is present",
                           "error class vs Spec defect predicate", op=f)
+    national_error_soundness(run, S)
     # BIC
     bics = sorted({e["bic"] for e in S.banks if e["bic"]})
     btexts = []
@@ -465,6 +494,7 @@ def c11(run):
         if reals[k + 1] != "ok " + hx(i):
             run.violation("IBAN.from_bban(country, bban)", [i], reals[k + 1], "ok " + hx(i), "reassembly",
                           op=ops[k + 1], expected_line="ok " + hx(i))
+    via_bban_check(run, S, ibans[:: max(1, len(ibans) // run.scale(400, 4000))])
     bics = sorted({e["bic"] for e in S.banks if e["bic"]})
     bops = [["bic.parts", hx(b)] for b in S.r.sample(bics, run.scale(1500, len(bics)))]
     breals, _ = run.correspond("bic parts", bops)
@@ -474,6 +504,114 @@ def c11(run):
         if "".join(p) != b or (p[3] == "") != (len(b) == 8):
             run.violation("bic parts", [b], a, "parts concatenate to the compact form", "concatenation", op=f)
 
+
+
+def national_error_soundness(run, S):
+    """With national validation on, an error names a defect that is present: IBANs with correct ISO
+    check digits are rejected with InvalidBBANChecksum / InvalidAccountCode exactly when the
+    independent reference of the national rule (every German method that occurs in the registry,
+    every leading digit; the 22 national rules) rejects the BBAN."""
+    import natref
+    from realops import checksum, registry_lines
+    r = S.r
+    methods = sorted(k[3:] for k in checksum.algorithms if k.startswith("DE:"))
+    de_banks = S.banks_of("DE")
+    first = {}
+    for e in de_banks:
+        first.setdefault(e["bank_code"], e)
+    by_algo = {}
+    for e in first.values():
+        by_algo.setdefault(e.get("checksum_algo"), []).append(e)
+    ops, meta = registry_lines(de_banks), [None] * (len(de_banks) + 1)
+    for algo, es in sorted(by_algo.items(), key=lambda kv: str(kv[0])):
+        if algo not in methods:
+            continue
+        for lead in DIGITS:
+            for j in range(run.scale(2, 30)):
+                e = r.choice(es)
+                acct = lead + "".join(r.choice(DIGITS) for _ in range(9))
+                if j % 2 == 0:      # accept side: an account the reference accepts, found by search
+                    for _ in range(300):
+                        if natref.de(algo, acct) is True:
+                            break
+                        acct = lead + "".join(r.choice(DIGITS) for _ in range(9))
+                elif r.random() < 0.5:
+                    k = r.randint(1, 6)
+                    acct = ("0" * k + acct)[:10]
+                b = e["bank_code"] + acct
+                ops.append(["iban.new", hx("DE" + iban_check_digits("DE", b) + b), "F", "T"])
+                meta.append(("DE method " + algo, natref.de(algo, acct)))
+    for cc in sorted(natref.NATIONAL):
+        ops += registry_lines(S.banks_of(cc))
+        meta += [None] * (len(ops) - len(meta))
+        for j in range(run.scale(12, 300)):
+            b = S.bban(cc).upper()
+            if j % 2 == 0:
+                b = natref.make_valid(cc, b, r) or b
+            ops.append(["iban.new", hx(cc + iban_check_digits(cc, b) + b), "F", "T"])
+            meta.append((cc, natref.NATIONAL[cc](b)))
+    reals, _ = run.correspond("national errors", ops)
+    for f, m, a in zip(ops, meta, reals):
+        if m is None or m[1] is None:
+            continue
+        rule, want = m
+        got = a.startswith("ok ")
+        okv = (got in want) if isinstance(want, set) else (got == want)
+        if not okv or not (got or a in ("err InvalidBBANChecksum", "err InvalidAccountCode")):
+            run.violation("IBAN(text, validate_bban=True)", [unhx(f[1]), rule], a,
+                          "accepted" if want is True else "InvalidBBANChecksum" if want is False else "either",
+                          "error raised only when the national defect is present (independent reference)", op=f)
+
+
+def via_bban_check(run, S, ibans):
+    """An IBAN assembled by from_bban - from a str, from a BBAN object of the same country, from a BBAN
+    object that was made for another country - is indistinguishable from IBAN(text): same compact form,
+    same accessors, and its .bban belongs to the IBAN's country."""
+    r = S.r
+    for i in ibans:
+        cc, b = i[:2], i[4:]
+        want = real(["iban.parts", hx(i)])
+        others = [c for c in S.countries if c != cc]
+        same_len = [c for c in others if S.table[c]["bban_length"] == len(b)]
+        hows = ["str", "same", "other:" + r.choice(others)] + (["other:" + r.choice(same_len)] if same_len else [])
+        for how in hows:
+            f = ["iban.via_bban", hx(cc), hx(b), how]
+            got = real(f)
+            run.count(1, key="\t".join(f), tag="iban.via_bban " + how.split(":")[0])
+            if got != want:
+                run.violation("IBAN.from_bban(country, bban) with bban as " + how, [cc, b], got, want,
+                              "same text through IBAN(text)", kind="op", op=f, expected_line=want)
+
+
+def boundary_sweep(S, r, cc, natref, tries=500):
+    """Structure-conforming BBANs of `cc` whose CORRECT national check value is an extreme of its
+    range (found by search with the reference: 00..03 / 96..99, 0/1/8/9, A/B/Y/Z), each with every
+    neighbouring and congruent value of the check field substituted (so a check that accepts a value
+    merely congruent to the right one - 01 for 98, 00 for 97 - meets its counterexample)."""
+    if cc not in natref.CHECK_FIELD:
+        return []
+    s, e = natref.CHECK_FIELD[cc]
+    ref = natref.NATIONAL[cc]
+    if cc in ("IT", "SM"):
+        targets, values = list("ABYZ"), list(UPPER)
+    elif e - s == 1:
+        targets, values = list("0189"), list(DIGITS)
+    else:
+        targets = ["00", "01", "02", "03", "95", "96", "97", "98", "99"]
+        values = targets + ["04", "10", "11", "12", "86", "87", "88", "89", "94"]
+    found = {}
+    for _ in range(tries):
+        b = S.bban(cc).upper()
+        for t in targets:
+            if t not in found and ref(b[:s] + t + b[e:]):
+                found[t] = b
+        if len(found) == len(targets):
+            break
+    out = []
+    for t, b in sorted(found.items()):
+        for v in values:
+            out.append(b[:s] + v + b[e:])
+    return out
 
 # --------------------------------------------------------------------------- C06
 @prop("C06",
@@ -510,6 +648,13 @@ def c06(run):
                       ["iban.new", hx(i), "F", "F"]):
                 ops.append(f)
                 meta.append((cc, b, want))
+    # check values at the ends of their range, with neighbouring / congruent values substituted
+    for cc in sorted(natref.NATIONAL):
+        ops += registry_lines(S.banks_of(cc))
+        meta += [None] * (len(ops) - len(meta))
+        for b in boundary_sweep(S, r, cc, natref):
+            ops.append(["bban.national", hx(cc), hx(b)])
+            meta.append((cc, b, natref.NATIONAL[cc](b)))
     # bank entries outside DE that name a method (none on the pinned tree): target each of them
     for e in S.banks:
         if "checksum_algo" in e and e["country_code"] != "DE" and e["country_code"] in natref.NATIONAL \
@@ -926,6 +1071,23 @@ def c18(run):
             want = "ok " + jenc(ref_merge(m[1], m[2]))
             if a != want:
                 run.violation("registry.merge_dicts", [m[1], m[2]], a, want, "deep later-wins merge", op=f)
+        elif m[0] == "v2":
+            doc = m[1]
+            try:
+                exp = []
+                for e in doc["entries"]:
+                    src, dst = doc["expand_from"], doc["expand_into"]
+                    base = {k: v for k, v in e.items() if k != src}
+                    base.setdefault("primary", False)
+                    for v in e[src]:
+                        exp.append({**base, dst: v})     # the expanded value wins over a key of that name
+                want = "ok " + jenc(exp)
+            except KeyError:
+                want = "exception"
+            if a != want:
+                run.violation("registry.parse_v2", [doc], a, want,
+                              "every expanded entry = the entry without the source key, primary defaulted, "
+                              "target key = the value", op=f, expected_line=want)
         elif m[0] == "get":
             fs = m[1]
             order = sorted(fs)
@@ -1033,7 +1195,18 @@ def c17(run):
             first.setdefault((e["country_code"], e["bank_code"]), e)
     keys = sorted(first)
     if run.tier != "thorough":
-        keys = r.sample(keys, min(len(keys), 700))
+        # boundary keys of every country (smallest / largest, first / last listed, single repeated
+        # character such as 000 or 999, shortest / longest) plus a random sample
+        edge = set()
+        per = {}
+        for k in keys:
+            per.setdefault(k[0], []).append(k)
+        for cc, ks in per.items():
+            edge.update([ks[0], ks[-1], min(ks, key=lambda k: len(k[1])), max(ks, key=lambda k: len(k[1]))])
+            edge.update(k for k in ks if len(set(k[1])) == 1)
+            listed = [e["bank_code"] for e in S.banks_of(cc) if e["bank_code"]]
+            edge.update([(cc, listed[0]), (cc, listed[-1])])
+        keys = sorted(edge | set(r.sample(keys, min(len(keys), 700))))
     by_cc = {}
     for k in keys:
         by_cc.setdefault(k[0], []).append(k)
@@ -1291,6 +1464,24 @@ def c09(run):
                     covered.update(range(s_, e_))
             ops3.append(["bban.from_components", hx(cc)] + kv)
             meta3.append((cc, b, covered))
+    # check values at the ends of their range: whatever the LIBRARY accepts nationally must rebuild
+    for cc in sorted(natref.NATIONAL):
+        spec = S.table[cc]
+        if "positions" not in spec:
+            continue
+        ops3 += registry_lines(S.banks_of(cc))
+        meta3 += [None] * (len(ops3) - len(meta3))
+        for b in boundary_sweep(S, r, cc, natref):
+            if real(["bban.national", hx(cc), hx(b)]) != "ok T":
+                continue
+            kv, covered = [], set()
+            for k in COMPONENT_ORDER:
+                if k in spec["positions"]:
+                    s_, e_ = spec["positions"][k]
+                    kv.append(k + "=" + hx(b[s_:e_]))
+                    covered.update(range(s_, e_))
+            ops3.append(["bban.from_components", hx(cc)] + kv)
+            meta3.append((cc, b, covered))
     # banks outside DE whose entry names a method: whatever the library accepts nationally must rebuild
     for e in S.banks:
         cc = e["country_code"]
@@ -1461,6 +1652,44 @@ def call_pool(S, r, n):
             cc = r.choice(S.countries)
             pool.append(["iban.generate", hx(cc), hx("".join(r.choice(DIGITS) for _ in range(r.randint(0, 9)))),
                          hx("".join(r.choice(DIGITS + "A-") for _ in range(r.randint(0, 12)))), "-"])
+    # one BBAN text carrying a listed bank code, looked up / checked / assembled under several countries
+    # (what a country answers must not depend on what another country was asked about the same text)
+    by_len = {}
+    for cc in S.countries:
+        by_len.setdefault(S.table[cc]["bban_length"], []).append(cc)
+    groups = []
+    for _ in range(max(3, n // 12)):
+        cc = r.choice([c for c in S.countries if S.banks_of(c) and len(by_len[S.table[c]["bban_length"]]) > 1])
+        b = S.bban_with_bank(cc).upper()
+        if not b.isdigit():
+            b = "".join(ch if ch in DIGITS else "7" for ch in b)
+        others = [c for c in by_len[len(b)] if c != cc]
+        order = [cc] + r.sample(others, min(len(others), 3))
+        r.shuffle(order)
+        g = [[r.choice(["bban.bank", "bban.bank", "bban.national", "iban.from_bban"]), hx(c2), hx(b)]
+             for c2 in order + order[::-1]]
+        groups.append(g)
+        pool += g
+    # per national algorithm: a malformed call (letter typed for a digit, truncated BBAN) followed by
+    # well-formed ones of the same country (a failed call must leave nothing behind)
+    for cc in sorted(natref.NATIONAL):
+        pos = S.table[cc].get("positions", {})
+        b = natref.make_valid(cc, S.bban(cc).upper(), r) or S.bban(cc).upper()
+        comps = {k: b[pos[k][0]:pos[k][1]] for k in ("bank_code", "branch_code", "account_code") if k in pos}
+        gen = lambda c: ["iban.generate", hx(cc), hx(c.get("bank_code", "")), hx(c.get("account_code", "")),
+                         hx(c.get("branch_code", ""))]
+        g = []
+        for k in sorted(comps):          # a letter typed for a digit, in each supplied component in turn
+            bad = dict(comps)
+            i = r.randrange(len(bad[k]))
+            bad[k] = bad[k][:i] + r.choice("OIl") + bad[k][i + 1:]
+            g.append(gen(bad))
+        g += [["bban.national", hx(cc), hx(b[: r.randrange(1, len(b))])], gen(comps),
+             ["iban.new", hx(cc + iban_check_digits(cc, b) + b), "F", "T"],
+             ["iban.random", hx(cc), str(r.randrange(1000)), "F"]]
+        groups.append(g)
+        pool += g
+    call_pool.groups = groups
     # lookup sequences around bank codes whose first-listed entry is not primary
     firsts = {}
     for e in S.banks_of("DE"):
@@ -1512,6 +1741,10 @@ def c15(run):
     n_hist = run.scale(24, 400)
     for hno in range(n_hist):
         hist = [r.choice(pool) for _ in range(r.randint(30, 60))]
+        some = call_pool.groups if hno % 3 == 1 else r.sample(call_pool.groups, min(4, len(call_pool.groups)))
+        for g in r.sample(some, len(some)):      # grouped calls stay adjacent; every third history has all
+            at = r.randrange(len(hist) + 1)
+            hist[at:at] = g
         if hno % 3 == 0:       # repeat a few calls, interleaved with failing ones
             hist += hist[:10]
 
@@ -1573,7 +1806,17 @@ def c14(run):
     S = Streams(run.seed * 1000 + 14)
     r = S.r
     pairs = []
-    for m in ["02", "04", "07", "14", "16", "23", "25"]:
+    import re as _re
+    from realops import checksum
+    registered = sorted(k[3:] for k in checksum.algorithms if k.startswith("DE:"))
+    # methods whose code reads the scratch cell; methods the translator or a broken theorem points at
+    # (e.g. "DE class Algorithm13: weights is a cycle", theorem de13); two more drawn with the seed
+    named = _re.findall(r"Algorithm(\d\d)", " ".join(getattr(run, "gen_problems", []))) + \
+        _re.findall(r"\.de(\d\d)\b", " ".join(getattr(run, "broken", [])))
+    base = ["02", "04", "07", "14", "16", "23", "25"]
+    directed = [m for m in dict.fromkeys(named) if m in registered]
+    extra = r.sample([m for m in registered if m not in base + directed and m != "09"], 2)
+    for m in directed + base + extra:
         acc = rej = None
         for _ in range(4000):
             a = "".join(r.choice(DIGITS) for _ in range(10))
@@ -1598,7 +1841,8 @@ def c14(run):
     pairs.append([["bic.from_bank_code", hx("DE"), hx("43060967")], ["bban.bank", hx("DE"), hx("370400440532013000")]])
     pairs.append([["iban.new", hx("DE65100307000100000111"), "F", "T"], ["bic.candidates", hx("DE"), hx("10030700")]])
     if run.tier != "thorough":
-        pairs = pairs[:: 2] + pairs[-2:]
+        nd = 2 * len(directed)
+        pairs = pairs[:nd] + pairs[nd:: 2] + pairs[-2:]
     budget = run.scale(70, 2000)
     total = 0
     for ops in pairs:
@@ -1741,6 +1985,41 @@ def c13(run):
         if again != line:
             run.violation("IBAN.random", args, again, line, "same seed, second call in the same process",
                           kind="history", op=rop, expected_line=line)
+    # pinned values that do NOT fit their field (wrong class, too wide, Unicode digits, blanks): raising is
+    # fine, but whatever is returned must still be a valid IBAN of the country - never an invalid object
+    digits_u = U()[0]
+    for cc in (S.countries if run.tier == "thorough" else r.sample(S.countries, 25) + ["DE", "NL", "BG", "HU", "MU"]):
+        pos = S.table[cc].get("positions", {})
+        if not pos:
+            continue
+        for _ in range(run.scale(3, 30)):
+            k = r.choice(sorted(pos))
+            w = pos[k][1] - pos[k][0]
+            cls = [c for n, c in S.spec_items(cc) for _ in range(n)][pos[k][0]:pos[k][1]] or ["n"]
+            how = r.randrange(5)
+            if how == 0:      # a character of another class
+                v = [S.draw_class(c) for c in cls]
+                i = r.randrange(len(v))
+                v[i] = r.choice(UPPER) if cls[i] == "n" else r.choice(DIGITS) if cls[i] == "a" else r.choice("-_.?")
+                v = "".join(v)
+            elif how == 1:    # one character too wide
+                v = "".join(S.draw_class(c) for c in cls) + S.draw_class(cls[-1])
+            elif how == 2:    # non-ASCII digits
+                v = "".join(r.choice(digits_u) for _ in range(w))
+            elif how == 3:    # a BIC-like / word value
+                v = r.choice(["COBADEFF", "EURO", "ABC", "12345ABCDE", "X"])
+            else:             # much too wide
+                v = "".join(S.draw_class(cls[0]) for _ in range(w + r.randint(2, 6)))
+            for use_reg in (True, False):
+                rop = ["iban.random", hx(cc), str(run.seed * 17 + _ ), "T" if use_reg else "F", k + "=" + hx(v)]
+                line = real(rop)
+                run.count(1, key="\t".join(rop), tag="ill-formed pin -> " + line.split(" ")[0])
+                if line.startswith("ok "):
+                    i = unhx(line[3:])
+                    if i[:2] != cc or real(["iban.new", hx(i), "F", "F"]) != "ok " + hx(i):
+                        run.violation("IBAN.random", [cc, "use_registry=%s" % use_reg, {k: v}], line,
+                                      "a valid IBAN of the country, or an error", "ill-formed pinned value",
+                                      op=rop, expected_line="err")
     # registry entries that do not fit their country's bank-identifying field (none on the pinned tree):
     # force the draw onto each of them
     import random as _random
@@ -1767,7 +2046,11 @@ def c13(run):
                           "registry draw forced onto the bank entry the data audit flagged (" + why + ")",
                           kind="config")
     # reproducibility across processes / hash seeds; the no-country form
-    sample = S.countries if run.tier == "thorough" else r.sample(S.countries, 10)
+    # every country that has registry entries (the registry-mode draw depends on the order of the bank
+    # list, which must not depend on the hash seed), plus a sample of the others
+    with_banks = [cc for cc in S.countries if S.banks_of(cc)]
+    sample = S.countries if run.tier == "thorough" else \
+        with_banks + r.sample([c for c in S.countries if c not in with_banks], 6)
     code = ("import sys; sys.path.insert(0, %r)\n"
             "from random import Random\nfrom schwifty import IBAN\n"
             "for line in sys.stdin.read().split():\n"
@@ -1831,6 +2114,31 @@ def c03(run):
                     muts.append(i[:p] + b2 + a + i[p + 2:])
             texts.append(("valid", i))
             texts += [("mutant", m) for m in muts]
+    # check-digit values and country codes that occur as literals in the source (a special case for one
+    # pair of them must not open a hole), plus the ends of the range: valid IBANs with exactly these
+    # check digits, every BBAN position substituted and every adjacent pair transposed
+    from streams import source_literals
+    _, strs = source_literals()
+    lit_cc = [s for s in strs if s in S.table]
+    lit_dd = sorted({s for s in strs if len(s) == 2 and s.isdigit() and "02" <= s <= "98"} | {"02", "98"})
+    pairs = [(cc, dd) for cc in lit_cc for dd in lit_dd]
+    if run.tier != "thorough" and len(pairs) > 500:
+        pairs = r.sample(pairs, 500)
+    for cc, dd in pairs:
+        i = S.iban_with_dd(cc, dd)
+        if i is None:
+            continue
+        muts = []
+        positions = list(range(4, len(i)))
+        if run.tier != "thorough":
+            positions = r.sample(positions, min(len(positions), 6))
+        for p in positions:
+            pool = DIGITS if i[p] in DIGITS else UPPER
+            muts.append(i[:p] + r.choice([x for x in pool if x != i[p]]) + i[p + 1:])
+            if p + 1 < len(i) and i[p] != i[p + 1] and (i[p] in DIGITS) == (i[p + 1] in DIGITS):
+                muts.append(i[:p] + i[p + 1] + i[p] + i[p + 2:])
+        texts.append(("valid", i))
+        texts += [("mutant", m) for m in muts]
     n_fail = 0
     for k, (kind, t) in enumerate(texts):
         if k % 40 == 0:     # failing assembly calls in between (they must not disturb later validations)
